@@ -7,6 +7,7 @@ Imports only Mctp.Model / Mctp.Spec (no Mathlib), so it links as a native execut
 import Mctp.Model.Process
 import Mctp.Model.Ctors
 import Mctp.Spec.Judge
+import Mctp.Spec.JudgeView
 open Mctp
 
 namespace Drv
@@ -409,6 +410,43 @@ def keepProps (st : St) (ps : List String) : List String :=
   | some p => ps.filter (· == p)
   | none => ps
 
+/-! observations of view / constructor / conversion operations -/
+
+def parseNatObs (t : List String) : Option (Out Unit Nat) :=
+  match t with
+  | [n] => n.toNat?.map .ok
+  | ["panic", k, f] => some (.panic (parsePanic k f))
+  | _ => none
+
+def parseBytesObs (t : List String) : Option (Out Unit Bytes) :=
+  match t with
+  | [b] => (parseBytes b).map .ok
+  | ["panic", k, f] => some (.panic (parsePanic k f))
+  | _ => none
+
+def parseBoolObs (t : List String) : Option Bool :=
+  match t with
+  | ["ok"] => some true
+  | ["err"] => some false
+  | _ => none
+
+def allCmds : List Cmd := C19.cmdTable.map (·.2) ++ [.unknown]
+def allMsgs : List MsgType := C19.msgTable.map (·.2) ++ [.invalid]
+def allCcs : List CC := C19.ccTable.map (·.2)
+
+def parseConvObs {α : Type} (all : List α) (name : α → String) (t : List String) : Option (Out Unit (B × α)) :=
+  match t with
+  | [v, n] => do
+      let v ← parseByte v
+      let x ← all.find? (fun x => name x == n)
+      pure (.ok (v, x))
+  | ["panic", k, f] => some (.panic (parsePanic k f))
+  | _ => none
+
+def viewJudge (st : St) (prop : String) (parse : List String → Option α) (j : α → Spec.Verdict) :
+    String → Option (List (String × Spec.Verdict)) :=
+  fun o => (parse (toks o)).map fun x => (keepProps st [prop]).map fun pr => (pr, j x)
+
 def handle (st : St) (line : String) : St × String :=
   let (opPart, impl) : String × Option String :=
     match line.splitOn " => " with
@@ -534,80 +572,97 @@ def handle (st : St) (line : String) : St × String :=
   | ["view", "get", fname, raw] =>
     match fieldOf fname, parseBytes raw with
     | some f, some r =>
-      match f.getC (fileOfView fname) r with
-      | .ok v => (st, s!"{v}")
+      let file := fileOfView fname
+      let judge := viewJudge st "C18" parseNatObs (Spec.judgeViewGet f file r)
+      match f.getC file r with
+      | .ok v => (st, answer s!"{v}" judge impl)
       | .err _ => (st, "bad-op")
-      | .panic p => (st, showPanic p)
+      | .panic p => (st, answer (showPanic p) judge impl)
     | _, _ => (st, "bad-op")
   | ["view", "set", fname, v, raw] =>
     match fieldOf fname, parseHexNat v, parseBytes raw with
     | some f, some v, some r =>
-      match f.setC (fileOfView fname) r v with
-      | .ok b => (st, hexBytes b)
+      let file := fileOfView fname
+      let judge := viewJudge st "C18" parseBytesObs (Spec.judgeViewSet f file r v)
+      match f.setC file r v with
+      | .ok b => (st, answer (hexBytes b) judge impl)
       | .err _ => (st, "bad-op")
-      | .panic p => (st, showPanic p)
+      | .panic p => (st, answer (showPanic p) judge impl)
     | _, _, _ => (st, "bad-op")
   | ["view", "tfb", raw, ver] =>
     match parseBytes raw, parseByte ver with
-    | some r, some v => (st, if transportFromBufOk r v then "ok" else "err")
+    | some r, some v =>
+      (st, answer (if transportFromBufOk r v then "ok" else "err") (viewJudge st "C18" parseBoolObs (Spec.judgeTfb r v)) impl)
     | _, _ => (st, "bad-op")
   | ["view", "bfb", raw] =>
     match parseBytes raw with
-    | some r => (st, if bodyFromBufOk r then "ok" else "err")
+    | some r => (st, answer (if bodyFromBufOk r then "ok" else "err") (viewJudge st "C18" parseBoolObs (Spec.judgeBfb r)) impl)
     | _ => (st, "bad-op")
   | ["new", "ctrl", rq, d, iid, cmd] =>
     match parseBool rq, parseBool d, parseByte iid, parseByte cmd with
     | some rq, some d, some iid, some cmd =>
       -- the command is given by its numeric value; 0xFF is `Unknown`
-      if (Cmd.ofByte cmd).toByte = cmd then (st, hexBytes (ctrlHeaderNew rq d iid (Cmd.ofByte cmd))) else (st, "bad-op")
+      if (Cmd.ofByte cmd).toByte = cmd then
+        (st, answer (hexBytes (ctrlHeaderNew rq d iid (Cmd.ofByte cmd)))
+          (viewJudge st "C18" parseBytesObs (Spec.judgeNewCtrl rq d iid cmd)) impl)
+      else (st, "bad-op")
     | _, _, _, _ => (st, "bad-op")
   | ["new", "transport", v] =>
     match parseByte v with
-    | some v => (st, hexBytes (transportHeaderNew v))
+    | some v => (st, answer (hexBytes (transportHeaderNew v)) (viewJudge st "C18" parseBytesObs (Spec.judgeNewTransport v)) impl)
     | none => (st, "bad-op")
   | ["new", "body", ic, t] =>
     match parseBool ic, parseType t with
     | some ic, some t =>
+      let judge := viewJudge st "C18" parseBytesObs (Spec.judgeNewBody ic t)
       match bodyHeaderNew ic t with
-      | .ok b => (st, hexBytes b)
+      | .ok b => (st, answer (hexBytes b) judge impl)
       | .err _ => (st, "bad-op")
-      | .panic p => (st, showPanic p)
+      | .panic p => (st, answer (showPanic p) judge impl)
     | _, _ => (st, "bad-op")
   | ["new", "routing", t, sz, f, ph] =>
     match parseByte t, parseByte sz, parseByte f, parseByte ph with
-    | some t, some sz, some f, some ph => (st, hexBytes (routingEntryNew t sz f ph))
+    | some t, some sz, some f, some ph =>
+      (st, answer (hexBytes (routingEntryNew t sz f ph)) (viewJudge st "C18" parseBytesObs (Spec.judgeNewRouting t sz f ph)) impl)
     | _, _, _, _ => (st, "bad-op")
   | ["new", "pci", v] =>
     match parseHexNat v with
-    | some v => (st, hexBytes (pciFormatNew (BitVec.ofNat 16 v)))
+    | some v => (st, answer (hexBytes (pciFormatNew (BitVec.ofNat 16 v))) (viewJudge st "C18" parseBytesObs (Spec.judgeNewBe 2 v)) impl)
     | none => (st, "bad-op")
   | ["new", "iana", v] =>
     match parseHexNat v with
-    | some v => (st, hexBytes (ianaFormatNew (BitVec.ofNat 32 v)))
+    | some v => (st, answer (hexBytes (ianaFormatNew (BitVec.ofNat 32 v))) (viewJudge st "C18" parseBytesObs (Spec.judgeNewBe 4 v)) impl)
     | none => (st, "bad-op")
   | ["hdr", "smbus", id, dst] =>
     match st.get id, parseByte dst with
-    | some c, some d => (st, hexBytes (smbusHeader c.model.address d))
+    | some c, some d =>
+      (st, answer (hexBytes (smbusHeader c.model.address d)) (viewJudge st "C18" parseBytesObs (Spec.judgeHdrSmbus c.spec.addr d)) impl)
     | _, _ => (st, "bad-op")
   | ["hdr", "transport", id, dst] =>
     match st.get id, parseByte dst with
-    | some c, some d => (st, hexBytes (transportHeader c.model.address d))
+    | some c, some d =>
+      (st, answer (hexBytes (transportHeader c.model.address d)) (viewJudge st "C18" parseBytesObs (Spec.judgeHdrTransport c.spec.addr d)) impl)
     | _, _ => (st, "bad-op")
   | ["conv", "cmd", b] =>
     match parseByte b with
-    | some b => (st, s!"{hexByte (Cmd.ofByte b).toByte} {cmdName (Cmd.ofByte b)}")
+    | some b =>
+      (st, answer s!"{hexByte (Cmd.ofByte b).toByte} {cmdName (Cmd.ofByte b)}"
+        (viewJudge st "C19" (parseConvObs allCmds cmdName) (Spec.judgeConvCmd b)) impl)
     | none => (st, "bad-op")
   | ["conv", "msg", b] =>
     match parseByte b with
-    | some b => (st, s!"{hexByte (MsgType.ofByte b).toByte} {msgName (MsgType.ofByte b)}")
+    | some b =>
+      (st, answer s!"{hexByte (MsgType.ofByte b).toByte} {msgName (MsgType.ofByte b)}"
+        (viewJudge st "C19" (parseConvObs allMsgs msgName) (Spec.judgeConvMsg b)) impl)
     | none => (st, "bad-op")
   | ["conv", "cc", b] =>
     match parseByte b with
     | some b =>
+      let judge := viewJudge st "C19" (parseConvObs allCcs ccName) (Spec.judgeConvCc b)
       match CC.ofByte b with
-      | .ok c => (st, s!"{hexByte c.toByte} {ccName c}")
+      | .ok c => (st, answer s!"{hexByte c.toByte} {ccName c}" judge impl)
       | .err _ => (st, "bad-op")
-      | .panic p => (st, showPanic p)
+      | .panic p => (st, answer (showPanic p) judge impl)
     | none => (st, "bad-op")
   | _ => (st, "bad-op")
 
